@@ -89,7 +89,14 @@ int cif_packet_create(cif_packet_tp **packet, UChar *names[]) {
                     entry->key_orig = cif_u_strdup(*next);
 
                     if (entry->key_orig == NULL) {
+                        /*
+                         * The packet's entries alias the normalized names, so the packet has to release them, together with
+                         * the original names already copied; they must not then be released a second time below.
+                         */
+                        (*packet)->map.is_standalone = 1;
                         cif_packet_free(*packet);
+                        *packet = NULL;
+                        counter = 0;
                         FAIL(soft, CIF_MEMORY_ERROR);
                     }
                 }
